@@ -175,6 +175,31 @@ fn prefix(case: &Value) -> Value {
     json!({"id": case["id"], "out": out})
 }
 
+thread_local! {
+    static TERA_KEY: tera::Tera = {
+        let mut t = TypeScriptTemplate::create_tera().expect("tera");
+        // the filter exists from repair C01-bare-key-quote on; on older trees rendering reports an error
+        let _ = t.add_raw_template("c15_tskey", "{{ v | ts_key | safe }}|{{ v | ts_key(member=true) | safe }}");
+        t
+    };
+}
+
+/// case {"id", "s"} -> {"id", "out": string | PANIC | {"ERR": msg}}: the ts_key filter (key and member form)
+fn tskey(case: &Value) -> Value {
+    let s = case["s"].as_str().unwrap().to_string();
+    let out = guarded(|| {
+        TERA_KEY.with(|t| {
+            let mut ctx = tera::Context::new();
+            ctx.insert("v", &s);
+            match t.render("c15_tskey", &ctx) {
+                Ok(o) => json!(o),
+                Err(e) => json!({"ERR": format!("{e:?}")}),
+            }
+        })
+    });
+    json!({"id": case["id"], "out": out})
+}
+
 /// case {"id", "rule", "name"} -> {"id", "out": string | PANIC}: the naming functions as the
 /// contexts call them (rule = one of the eight serde names, or "event")
 fn naming(case: &Value) -> Value {
@@ -355,6 +380,7 @@ fn main() {
         ("serde", serde),
         ("type", type_),
         ("prefix", prefix),
+        ("tskey", tskey),
         ("naming", naming),
         ("inventory", inventory),
         ("project", project),
